@@ -227,6 +227,34 @@ public:
     QString filePath(const QString &name) const { return m_path + QChar('/') + name; }
     QString absolutePath() const { return m_path; }
     bool exists() const { return true; }
+    // name filters: QDir wildcards '*' and '?' (classes [...] are outside the model); a name is listed if it matches any filter
+    static bool qm_glob(const QString &pat, const QString &name)
+    {
+        // reach[j]: the first i characters of the pattern can match the first j characters of the name
+        bool reach[QM_STR_CAP + 1];
+        for (int j = 0; j <= QM_STR_CAP; ++j) reach[j] = j == 0;
+        for (int i = 0; i < QM_STR_CAP; ++i) if (i < pat.m_len) {
+            const ushort c = pat.m_d[i];
+            QM_LIMIT(c != '[');
+            bool next[QM_STR_CAP + 1];
+            if (c == '*') { bool any = false; for (int j = 0; j <= QM_STR_CAP; ++j) { any = any || reach[j]; next[j] = any && j <= name.m_len; } }
+            else { next[0] = false; for (int j = 1; j <= QM_STR_CAP; ++j) next[j] = reach[j - 1] && j <= name.m_len && (c == '?' || name.m_d[j - 1] == c); }
+            for (int j = 0; j <= QM_STR_CAP; ++j) reach[j] = next[j];
+        }
+        bool r = false;
+        for (int j = 0; j <= QM_STR_CAP; ++j) if (j == name.m_len) r = reach[j];
+        return r;
+    }
+    QStringList entryList(const QStringList &nameFilters, int filters = NoFilter, int sort = NoSort) const
+    {
+        QStringList all = entryList(filters, sort), l;
+        for (int i = 0; i < all.size(); ++i) {
+            bool hit = false;
+            for (int f = 0; f < nameFilters.size(); ++f) if (qm_glob(nameFilters.at(f), all.at(i))) hit = true;
+            if (hit) l.append(all.at(i));
+        }
+        return l;
+    }
     QStringList entryList(int filters = NoFilter, int sort = NoSort) const
     {
         // plain files of the directory, sorted by name (QDir's default sort and QDir::Name agree for these ASCII names).
